@@ -1,9 +1,11 @@
 """C03 — the diff is a faithful, lossless description. impl: patching.make_diff / strip_unchanged / formatter.diff;
-model: Annet.Diff.makeDiff; oracle: projections, exact ops, self-diff, MOVED, text round trip on the real outputs."""
+model: Annet.Diff.makeDiff; oracle: projections, exact ops, self-diff, MOVED, text round trip on the real outputs.
+The glue between the diff and the text that is shown (file mode: api._read_old_new_diff_patch / file_diff_worker; several
+devices: annet.diff.collapse_diffs / gen_sort_diff / api.Deployer.diff_lines) is driven by the kinds of harness/c03glue.py."""
 import copy
 import random
 
-from harness import rbgen
+from harness import c03glue, rbgen
 
 ID = "C03"
 RULE = ("(rulebook text, vendor, old, new): random patching rulebooks over the rule grammar (nesting<=3, %global, %ordered, "
@@ -11,7 +13,12 @@ RULE = ("(rulebook text, vendor, old, new): random patching rulebooks over the r
         "reorderings, unknown rows, 10% with several rows per (rule,key)); plus self-diff cases (old == new); plus the small "
         "space (30 rulebooks `a * [P] / x * [Q]`, `b` x all ordered pairs of 104 configurations over {a 1, a 2, b} / "
         "{x 1, x 2}: 324480 cases) exhaustively in the thorough tier and one 64th of it in the quick tier; non-trivial = "
-        "the stripped diff has >=2 entries and >=2 different ops or nesting; distinct = distinct case")
+        "the stripped diff has >=2 entries and >=2 different ops or nesting; distinct = distinct case; plus the glue kinds: "
+        "fileglue (generated rulebooks through api._read_old_new_diff_patch + the printing statement of file_diff_worker), "
+        "filediff (shipped rulebooks of arista/huawei/cisco/nexus/iosxr/juniper through api.file_diff_worker on real files "
+        "rendered from a universe of vendor-shaped blocks of which old and new are correlated selections), collapse (2-6 devices "
+        "whose diffs come in families - identical, identical with other context, same flattened lines under another nesting, "
+        "different - through annet.diff.collapse_diffs, gen_sort_diff and api.Deployer.diff_lines)")
 TRUSTED_BASE = [
     "Lean 4.33 kernel; axioms per theorem listed (subset of propext, Classical.choice, Quot.sound)",
     "rule rows matched by Model/Pattern.lean (tied to CPython re by C07); tabparser/valkit executed, not modelled",
@@ -19,11 +26,16 @@ TRUSTED_BASE = [
 ]
 ASSUMPTIONS = [
     "standard diff logics only (default_diff, ordered_diff, rewrite_diff); vendor %diff_logic functions and %multiline are out "
-    "of scope by the property text", "no ACL (acl_rules_list = [])", "no %ignore_case / %comment / %context rules"]
+    "of scope by the property text", "no ACL (acl_rules_list = [])", "no %ignore_case / %comment / %context rules",
+    "filediff: the projection clause is checked on the text only when every row of the pair is compared by a standard diff logic "
+    "(label filediff:projection-clause=...); the read-back clause is checked always",
+    "collapse: the devices' diffs are given to the grouping code directly (strip_unchanged(make_diff(old, new, R, []))), as "
+    "annet/diff.py:111-120 and api.Deployer.parse_result hand them over; devices that differ in an snmp secret only are "
+    "generated for huawei and classified by the harness's own masking (recorded finding F03c)"]
 
 
 def setup_worker():
-    rbgen.setup()
+    c03glue.setup()
 
 
 def shards(tier, seed):
@@ -32,6 +44,9 @@ def shards(tier, seed):
     # the small space (30 rulebooks x 104 x 104 ordered config pairs), exhaustively in the thorough tier, one 64th of it
     # (chosen by the seed) in the quick tier
     out += [dict(kind="chain", seed=seed * 1000 + 700 + i, n=150 if tier == "quick" else 10000) for i in range(4)]
+    out += [dict(kind="fileglue", seed=seed * 1000 + 800 + i, n=150 if tier == "quick" else 5000) for i in range(4)]
+    out += [dict(kind="filediff", seed=seed * 1000 + 820 + i, n=60 if tier == "quick" else 1000) for i in range(6)]
+    out += [dict(kind="collapse", seed=seed * 1000 + 840 + i, n=60 if tier == "quick" else 1000) for i in range(6)]
     if tier == "quick":
         out += [dict(kind="small", part=(seed * 4 + i) % 256, parts=256) for i in range(4)]
     else:
@@ -99,6 +114,12 @@ def gen_chain(rng):
 
 
 def gen(desc):
+    if desc.get("kind") in c03glue.KINDS:
+        rng = random.Random(desc["seed"])
+        g = dict(fileglue=c03glue.gen_fileglue, filediff=c03glue.gen_filediff, collapse=c03glue.gen_collapse)[desc["kind"]]
+        for _ in range(desc["n"]):
+            yield g(rng)
+        return
     if desc.get("kind") == "chain":
         rng = random.Random(desc["seed"])
         for _ in range(desc["n"]):
@@ -139,6 +160,21 @@ def _formatters(case):
 
 
 def impl(case):
+    kind = case.get("kind")
+    if kind == "filediff":
+        return c03glue.impl_filediff(case)
+    if kind == "collapse":
+        out = c03glue.impl_collapse(case)
+        if case["rb"] == "nest" and "err" not in out:
+            out["devs"] = [impl_direct(sub) for sub in c03glue.collapse_subcases(case)]
+        return out
+    out = impl_direct(case)
+    if kind == "fileglue" and "err" not in out:
+        out.update(c03glue.file_glue(case))
+    return out
+
+
+def impl_direct(case):
     from annet.annlib import patching
     from annet.annlib.diff import gen_pre_as_diff
     rbgen.setup()
@@ -169,16 +205,47 @@ def impl(case):
 
 def requests(case):
     rbgen.setup()
+    if case.get("kind") == "filediff" or (case.get("kind") == "collapse" and case["rb"] != "nest"):
+        return []       # shipped rulebooks: vendor logic and regular expressions outside the modelled rule language
+    if case.get("kind") == "collapse":
+        subs = [_diff_request(sub) for sub in c03glue.collapse_subcases(case)]
+        # … and the grouping itself by the Lean model of collapse_diffs (Model/Collapse.lean) over the same devices:
+        # the key of a device is the text of its own formatter (the first of `fmts`)
+        devs = [dict(rq, name=d["name"], hw_vendor=d["vendor"]) for rq, d in zip(subs, case["devs"])]
+        return subs + [dict(op="rb.collapse", devs=devs)]
+    if case.get("kind") == "fileglue":
+        # the second answer says whether the patch side of file mode refuses the pair (Api.fileMode)
+        return [_diff_request(case), rbgen.job_request("rb.patch", case, do_commit=True, mode="file")]
+    return [_diff_request(case)]
+
+
+def _diff_request(case):
     rq = rbgen.job_request("rb.diff", case)
     rq["fmts"] = [dict(name=name, indent=f._indent, block_begin=f._block_begin, block_end=f._block_end,
                        statement_end=f._statement_end) for name, f in _formatters(case)]
-    return [rq]
+    return rq
 
 
 def model(case, resp):
+    if case.get("kind") == "collapse":
+        if any(x.get("grammar") is False for x in resp):
+            return {"skip": True}
+        grouping, resp = resp[-1], resp[:-1]
+        out = c03glue.model_collapse(case, resp, grouping)
+        if "err" not in out:
+            out["devs"] = list(resp)
+        return out
     r = resp[0]
     if r.get("grammar") is False:
         return {"skip": True}
+    if case.get("kind") == "fileglue" and "err" not in r:
+        # file mode shows the `annet diff` text of the stripped diff of the same pair (Model/DiffText.lean preText)
+        if resp[1].get("grammar") is False:
+            return {"skip": True}
+        if "err" in resp[1]:
+            r = dict(r, file_err=resp[1]["err"])
+        else:
+            r = dict(r, file_view=r["pre_text"], file_stripped=r["stripped"])
     return r
 
 
@@ -349,6 +416,10 @@ def oracle(case, r):
     from annet.annlib import patching
     from annet.vendors import registry_connector
     rbgen.setup()
+    if case.get("kind") == "filediff":
+        return _uniq(c03glue.oracle_filediff(case, r))
+    if case.get("kind") == "collapse":
+        return _uniq(c03glue.oracle_collapse(case, r, parse_signed))
     if "err" in r:
         return []
     rb, d, err = run_diff(case)
@@ -393,6 +464,22 @@ def oracle(case, r):
                                                              "from the diff entries"))
     except Exception as e:  # noqa
         out.append(dict(sig="pre-text-raises", what="gen_pre_as_diff raised %r" % (e,)))
+    if case.get("kind") == "fileglue":
+        # what file mode shows: the text printed from the `pre` that _read_old_new_diff_patch returns
+        if "file_err" in r:
+            # two rows under one (rule, key) on one side: the patch side refuses the pair (AssertionError "Too many ..."), no text
+            # is shown at all
+            if r["file_err"] != "AssertionError":
+                out.append(dict(sig="file-glue-raises", what="file mode raised %s although make_diff gives a diff" % r["file_err"]))
+        else:
+            c03glue.oracle_view(r["file_view"], "  ", stripped, old, new, pre, "file-glue", out)
+            if r["file_stripped"] != rbgen.dump_diff(stripped):
+                out.append(dict(sig="file-glue-returned-diff-differs", what="_read_old_new_diff_patch returns a diff that is not "
+                                "strip_unchanged(make_diff(old, new, rb, []))"))
+    return _uniq(out)
+
+
+def _uniq(out):
     # one violation per signature is enough
     seen, uniq = set(), []
     for v in out:
@@ -403,6 +490,10 @@ def oracle(case, r):
 
 
 def nontrivial(case, r):
+    if case.get("kind") == "filediff":
+        return len(r.get("view", [])) >= 2 and any(ln[1:].startswith("  ") for ln in r["view"])
+    if case.get("kind") == "collapse":
+        return len([g for g in r.get("groups", []) if g[1]]) >= 2 or any(len(g[0]) > 1 and g[1] for g in r.get("groups", []))
     if "stripped" not in r:
         return False
     ops = set()
@@ -419,7 +510,19 @@ def nontrivial(case, r):
 
 
 def stats(case, r):
+    if case.get("kind") == "filediff":
+        return c03glue.stats_filediff(case, r)
+    if case.get("kind") == "collapse":
+        return c03glue.stats_collapse(case, r)
     lab = ["vendor=" + case["vendor"]]
+    if case.get("kind") == "fileglue":
+        lab.append("kind=fileglue")
+        if "file_err" in r:
+            lab.append("fileglue:no-text(file mode raised %s)" % r["file_err"])
+        if "stripped" in r:
+            from annet.annlib import patching
+            _rb, _d, _e = run_diff(case)
+            lab += c03glue.diff_shape_labels("fileglue", patching.strip_unchanged(_d))
     if "err" in r:
         return lab + ["result=" + r["err"]]
     ops = set()
@@ -443,6 +546,9 @@ def stats(case, r):
 
 
 def shrink_candidates(case):
+    if case.get("kind") == "collapse":
+        yield from c03glue.shrink_collapse(case)
+        return
     for side in ("old", "new"):
         t = case[side]
 
